@@ -13,7 +13,8 @@ TInit == l = 1 /\ GInit
 \* work-tree kinds the recorder produces; "ignored" (a file matched by .gitignore) and "empty-dir" are no changes
 Dirty(kind) == kind \in {"modified", "staged", "untracked", "deleted", "staged-deletion", "untracked-nested", "staged-then-reverted"}
 \* e.at = 0: observed in the main work tree (its root or a sub-directory); e.at = c: observed in a
-\* linked work tree (git worktree add --detach) at commit c - its own HEAD, no branch
+\* linked work tree (git worktree add) at commit c - its own HEAD, detached or on the branch e.wbranch
+\* created for it (a temporary branch at c: it carries no tag and changes no fact of the model)
 ObserveReason(e) ==
   LET o == e.obs
       h == IF e.at = 0 THEN HeadCommit ELSE e.at
@@ -24,7 +25,7 @@ ObserveReason(e) ==
   ELSE IF exp = {} THEN "version-without-valid-tag"
   ELSE IF ~\E x \in exp : x.tag = o.tag /\ x.c = o.tagc /\ x.distance = o.distance THEN "base-tag-or-distance"
   ELSE IF o.dirty # Dirty(e.wt) THEN "dirty"
-  ELSE IF o.branch # (IF e.at = 0 THEN BranchReported ELSE "") THEN "branch"
+  ELSE IF o.branch # (IF e.at = 0 THEN BranchReported ELSE IF "wbranch" \in DOMAIN e THEN e.wbranch ELSE "") THEN "branch"
   ELSE IF o.headc # h THEN "head-commit"
   ELSE IF ~o.tag_time_ok THEN "tag-time"
   ELSE IF o.head_time # (IF Dirty(e.wt) THEN "now" ELSE "commit") THEN "head-time"
